@@ -329,3 +329,75 @@ func shortEvent(e Event) string {
 
 var _ = fmt.Sprint
 var _ = token.NoPos
+
+
+// buildBlock constructs an output block through the package's own API — mkBlock(kind), then
+// markCombined + push(stmt, kind) per statement — so that the rules do not depend on how the
+// block type represents its state (field names, flags as bools or bits).
+func (r *rwRT) buildBlock(st *State, blockKind AV, stmts []AV, kinds []AV) (AV, *State, error) {
+	mk := r.w.FuncOpt(pathRw, "mkBlock")
+	if mk == nil {
+		return nil, nil, fmt.Errorf("constructor mkBlock not found")
+	}
+	in := r.interp(rwConfig{root: mk, inlineAll: true})
+	outs := in.Run(st, mk, []AV{blockKind}, nil)
+	r.account(in)
+	if len(outs) != 1 || outs[0].Panicked || len(outs[0].Ret) != 1 {
+		return nil, nil, fmt.Errorf("mkBlock is not a single straight-line construction")
+	}
+	b, cur := outs[0].Ret[0], outs[0].St
+	call := func(method string, args ...AV) error {
+		fn := r.method("block", method)
+		if fn == nil {
+			return fmt.Errorf("method block.%s not found", method)
+		}
+		in := r.interp(rwConfig{root: fn, inlineAll: true})
+		in.MaxVisits = 8
+		o := in.Run(cur, fn, append([]AV{b}, args...), nil)
+		r.account(in)
+		if len(o) != 1 || o[0].Panicked {
+			return fmt.Errorf("block.%s is not a single normal path while building a block", method)
+		}
+		cur = o[0].St
+		return nil
+	}
+	for i := range stmts {
+		if err := call("markCombined"); err != nil {
+			return nil, nil, err
+		}
+		if err := call("push", stmts[i], kinds[i]); err != nil {
+			return nil, nil, err
+		}
+	}
+	cur.Events = nil
+	return b, cur, nil
+}
+
+// astBlockOf: the go/ast block an output block carries (found by its type, not by a field name).
+func (r *rwRT) astBlockOf(st *State, b AV) (AV, *Obj) {
+	o := st.Obj(b)
+	if o == nil {
+		return nil, nil
+	}
+	want := r.astPtr("BlockStmt").(*types.Pointer).Elem()
+	for _, f := range o.Fields {
+		if fo := st.Obj(unwrap(f)); fo != nil && fo.T != nil && types.Identical(fo.T, want) {
+			return unwrap(f), fo
+		}
+	}
+	return nil, nil
+}
+
+// blockHasConst: some field of the block object holds exactly this constant (e.g. its kind).
+func blockHasConst(st *State, b AV, c AV) bool {
+	o := st.Obj(b)
+	if o == nil {
+		return false
+	}
+	for _, f := range o.Fields {
+		if sameAV(f, c) {
+			return true
+		}
+	}
+	return false
+}
